@@ -49,6 +49,8 @@ def configs(tier, seed, salt):
     cfgs.append({"dw": 8, "aw": 13, "align": 0, "ov": None, "regs": [[16, "rw", 0x100, None], [8, "w", 0x1000, None], [24, "rw", 0x1001, None],
                                                                    [8, "r", 0x1fff, None]]})
     cfgs.append({"dw": 16, "aw": 11, "align": 1, "ov": 1, "regs": [[16, "rw", 0x1fe, None], [32, "rw", 0x200, None], [48, "r", 0x7fc, None]]})
+    # an unsatisfiable sharing limit at a high base address: refused with ValueError (after a bounded number of shadow doublings)
+    cfgs.append({"dw": 8, "aw": 16, "align": 0, "ov": 0, "regs": [[8, "rw", 0x1000, None], [16, "rw", 0x1001, None]]})
     # padded register sizes that are NOT a power of two (5, 6, 9..11 words with alignment 1 / 2): a data word of one register
     # shares its shadow chunk with the alignment padding of the next one (the layouts csr.EventMonitor produces for 33+ events)
     for words, al in [(5, 1), (6, 1), (9, 1), (9, 2), (10, 2), (11, 1)]:
